@@ -118,10 +118,10 @@ func c10CheckImage(img *verifkit.Store, tree *verifkit.Tree, tip *verifkit.Block
 
 func TestVerif_C10(t *testing.T) {
 	rep := verifkit.NewReport("C10")
-	rep.Rule = "scenarios (DS engine, recorded by the storage wrapper): initial sync (short, and 998/1001/2001 blocks so that header files roll over), extensions in sync, reorgs of depth 1-6 (in sync, during sync, across a file boundary, among headers stored before the start block exists), clean restarts, shutdown saves. Crash points: for EVERY prefix i of the scenario's storage mutation log the image is rebuilt and a fresh node must load a hash-linked chain whose every header belongs to one branch of the peer's tree, and (every 5th i in the quick tier, all in thorough) converge to the peer's best chain. Faults: for EVERY j the j-th storage operation (read, write or delete) of the same deterministic scenario fails once; from that moment on the in-memory chain must pass the structural C02 probe after every scheduling step, or a fresh node on the surviving storage must load and converge. exhaustive=true refers to all i and all j per scenario (capped at 600 per scenario; the scenario set is sampled). Non-trivial = every (scenario, crash point / fault) pair; distinct by (scenario, i or j)"
+	rep.Rule = "scenarios (DS engine, recorded by the storage wrapper): initial sync (short, and 998/1001/2001 blocks so that header files roll over), extensions in sync, reorgs of depth 1-6 (in sync, during sync, across a file boundary, among headers stored before the start block exists), clean restarts, shutdown saves. Crash points: for EVERY prefix i of the scenario's storage mutation log the image is rebuilt and a fresh node must load a hash-linked chain whose every header belongs to one branch of the peer's tree, and (every 5th i in the quick tier, all in thorough) converge to the peer's best chain. Faults: for EVERY j the j-th storage operation (read, write or delete) of the same deterministic scenario fails once; from that moment on the in-memory chain must pass the structural C02 probe after every scheduling step, or a fresh node on the surviving storage must load and converge. exhaustive=true refers to all i and all j per scenario (capped at 600 per scenario, 200 images / 150 sampled read faults for the 1000-2000-block scenarios; the scenario set is sampled). Non-trivial = every (scenario, crash point / fault) pair; distinct by (scenario, i or j)"
 	rep.Assumptions = []string{"the DS engine is deterministic for a fixed seed, so operation j is the same operation in every replay", "verifkit.Store images are exact states after mutation i (copy-on-write)", "a storage fault is a returned error; torn writes are not modelled"}
 	defer rep.Write()
-	nsc := verifkit.N(6, 60)
+	nsc := verifkit.N(6, 24)
 	for ci := 0; ci < nsc; ci++ {
 		if !verifkit.Mine(ci) {
 			continue
@@ -172,8 +172,12 @@ func TestVerif_C10(t *testing.T) {
 		desc := fmt.Sprintf("scenario initial=%d start=%d %s steps=%v", sc.Initial, sc.Start, sc.PolDesc, sc.Steps)
 		// ---- crash images
 		stepI := 1
-		if muts > 600 {
-			stepI = muts/600 + 1
+		maxI := 600
+		if sc.Initial > 500 {
+			maxI = 200 // a long chain: loading and converging an image costs a second
+		}
+		if muts > maxI {
+			stepI = muts/maxI + 1
 		}
 		for i := 0; i <= muts; i += stepI {
 			img := store0.Image(i)
@@ -199,6 +203,9 @@ func TestVerif_C10(t *testing.T) {
 		// ---- single faults
 		stepJ := 1
 		maxJ := 600
+		if sc.Initial > 500 && verifkit.Thorough() {
+			maxJ = 150 // (reads sampled; every write and delete still fails once)
+		}
 		if sc.Initial > 500 && !verifkit.Thorough() {
 			maxJ = 10 // a replay of a long scenario is expensive: reads are sampled in the quick tier, writes and deletes all fail once
 		}
